@@ -29,7 +29,7 @@ LEVEL_NOTE = "Trusted: mc/refmodel.py capture semantics and its register-family 
 
 ALPHA_AB = [("mov", ["%rax", "%rbx"]), ("mov", ["%rbx", "%rax"]), ("mov", ["%rax", "%rax"]), ("push", ["%rax"]),
             ("push", ["%rbx"]), ("ret", [])]
-ALPHA_C = [("push", ["$0x1"]), ("push", ["$0x10"]), ("push", ["%r8"]), ("push", ["%r8d"]), ("mov", ["$0x1", "%r8"]),
+ALPHA_C = [("ret", []), ("push", ["$0x1"]), ("push", ["$0x10"]), ("push", ["%r8"]), ("push", ["%r8d"]), ("mov", ["$0x1", "%r8"]),
            ("mov", ["$0x10", "%r8d"]), ("mov", ["%r8", "$0x1"]), ("mov", ["%r8d", "$0x10"]), ("imul", ["$0x1", "%r8", "%r8d"]),
            ("imul", ["$0x10", "%r8d", "%r8"])]
 W = ("verdict", "aligned")
@@ -88,7 +88,9 @@ def fam_c(tier):
                 [{"push": ["&x"]}, {"imul": ["&x", "&y", "&y"]}], ["&i", "&i"], [{"mov": ["&x", "&x"]}],
                 # a capture followed by an item that fits a LATER operand than the adjacent one (capture must not grow over ',')
                 [{"imul": ["&x", "%r8"]}], [{"imul": ["&x", "%r8d"]}], [{"imul": ["&x", "&y"]}, {"push": ["&y"]}],
-                [{"imul": ["0x1", "&x", "%r8d"]}], [{"mov": ["&x", "0x1"]}], [{"imul": ["&x", "&x"]}]):
+                [{"imul": ["0x1", "&x", "%r8d"]}], [{"mov": ["&x", "0x1"]}], [{"imul": ["&x", "&x"]}],
+                # a capture must bind a NON-EMPTY operand: the single empty operand field of an operand-less instruction is not one
+                [{"ret": ["&x"]}], [{"ret": ["&x"]}, {"push": ["&x"]}], [{"push": ["&x"]}, {"ret": ["&x"]}], [{"push": ["&x", "&y"]}]):
         for cfg in ((False, False), (False, True)):
             rules.append(e1.RuleCase("C", pat, "c", cfgs=(cfg,), want=W))
     return rules
@@ -163,6 +165,15 @@ def fam_e_listings(fam):
 
 def fam_f(tier):
     rules = []
+    # register-family captures inside $deref fields (followed by '+', '*' or ']' instead of the field terminator)
+    for pat in ([{"mov": [{"$deref": {"main_reg": "&genreg-1.64", "constant_offset": "0x8"}}]}, {"push": ["&genreg-1.64"]}],
+                [{"mov": [{"$deref": {"main_reg": "&genreg-1.64"}}]}, {"push": ["&genreg-1.64"]}],
+                [{"mov": [{"$deref": {"main_reg": "&genreg-1.64", "register_multiplier": "&genreg-2.64", "constant_multiplier": 4, "constant_offset": "0x8"}}]},
+                 {"push": ["&genreg-2.64"]}],
+                [{"push": ["&genreg-1.64"]}, {"mov": [{"$deref": {"main_reg": "&genreg-1.64", "constant_offset": "0x8"}}]}],
+                [{"push": ["&genreg-1.64"]}, {"mov": [{"$deref": {"main_reg": "rax", "register_multiplier": "&genreg-1.64", "constant_multiplier": 4,
+                                                                   "constant_offset": "0x8"}}]}]):
+        rules.append(e1.RuleCase("F3", pat, "f", want=("verdict",)))
     for pat in ([{"mov": [{"$deref": {"main_reg": "&r", "constant_offset": "0x8"}}, "&r"]}],
                 [{"mov": [{"$deref": {"main_reg": "rax", "constant_offset": "&k"}}]}, {"push": ["&k"]}],
                 [{"push": ["&r"]}, {"mov": [{"$deref": {"main_reg": "&r"}}]}],
